@@ -143,6 +143,41 @@ func (t *fnTrans) call(ins ssa.Instruction, c *ssa.CallCommon, res ssa.Value) {
 			ob.Tags = cl.Tags
 		}
 	}
+	// preconditions the calling function's own contract attaches to this callee (e.g. monitor discipline)
+	for key, cls := range t.ct.AtCall {
+		if key != name && key != t.eng.shortName(name) {
+			continue
+		}
+		cenv := t.specEnv(t.st, t.entry)
+		for _, li := range t.loops {
+			if li.body[t.cur] && li.headVars != nil {
+				for k, v := range li.headVars {
+					if _, ok := cenv.vars[k]; !ok {
+						cenv.vars[k] = v
+					}
+				}
+			}
+		}
+		// the callee's parameters are visible under their names (unless they clash with the caller's)
+		for k, v := range env.vars {
+			if _, ok := cenv.vars[k]; !ok {
+				cenv.vars[k] = v
+			}
+		}
+		for i, cl := range cls {
+			label := cl.Label
+			if label == "" {
+				label = fmt.Sprintf("atcall.%d", i+1)
+			}
+			ob := t.oblig("pre", ins, label, cenv.evalBool(cl.Expr), "required at calls of "+key+": "+cl.Text)
+			if ob != nil {
+				ob.Tags = cl.Tags
+			}
+		}
+		for _, e := range cenv.errs {
+			t.errorf("atcall %s: %s", key, e)
+		}
+	}
 	// lock discipline builtins
 	t.lockEffect(ins, ct, env)
 	// havoc
@@ -195,6 +230,42 @@ func (t *fnTrans) call(ins ssa.Instruction, c *ssa.CallCommon, res ssa.Value) {
 	}
 	for _, e := range env.errs {
 		t.errorf("contract of %s at call site: %s", name, e)
+	}
+	if ct.Flags["yield"] != "" {
+		t.interfere(ins)
+	}
+}
+
+// interfere: other goroutines run (rely of the current function): havoc what they may modify and
+// assume the declared two-state facts about that change.
+func (t *fnTrans) interfere(ins ssa.Instruction) {
+	if len(t.ct.RelyMod) == 0 && len(t.ct.RelyEns) == 0 {
+		return
+	}
+	before := t.st.clone()
+	env := t.specEnv(t.st, before)
+	// loop variables visible by name
+	for _, li := range t.loops {
+		if li.body[t.cur] && li.headVars != nil {
+			for k, v := range li.headVars {
+				if _, ok := env.vars[k]; !ok {
+					env.vars[k] = v
+				}
+			}
+		}
+	}
+	for _, loc := range t.ct.RelyMod {
+		t.havocLoc(loc, env, before)
+	}
+	env.cur = t.st
+	env.old = before
+	for _, cl := range t.ct.RelyEns {
+		for _, pe := range splitConj(cl.Expr) {
+			t.assume(env.evalBool(pe))
+		}
+	}
+	for _, e := range env.errs {
+		t.errorf("rely clause: %s", e)
 	}
 }
 
@@ -308,6 +379,23 @@ func (t *fnTrans) resolveLoc(loc string, env *specEnv, pre *State) (l location, 
 				l.heaps = append(l.heaps, elemHeap(sl.Elem(), c.Suffix))
 				l.sorts = append(l.sorts, arr2Sort(c.Sort))
 			}
+			return l, true
+		case "gfield":
+			v := env.eval(n.Args[0])
+			bl, isLit := n.Args[1].(*ast.BasicLit)
+			if !isLit {
+				t.errorf("modifies gfield: second argument must be a string literal")
+				return
+			}
+			hn := "GF." + strings.Trim(bl.Value, "\"")
+			t.eng.heapSort[hn] = "(Array Int Int)"
+			l.kind = locCell
+			l.ref = v.C[0]
+			if _, isIface := under(v.T).(*types.Interface); isIface {
+				l.ref = v.C[1]
+			}
+			l.heaps = []string{hn}
+			l.sorts = []string{"(Array Int Int)"}
 			return l, true
 		case "mapof":
 			m := env.eval(n.Args[0])
@@ -627,6 +715,19 @@ func (t *fnTrans) callEffects(c *ssa.CallCommon, mods map[string]bool) {
 	if lk := ct.Flags["lock"]; lk != "" {
 		mods["$held"] = true
 	}
+	if ct.Flags["yield"] != "" {
+		// interference: everything the rely may modify
+		for _, loc := range t.ct.RelyMod {
+			env := t.specEnv(t.entry, t.entry)
+			nerr := len(t.errs)
+			if l, ok := t.resolveLoc(loc, env, t.entry); ok {
+				for _, hn := range l.heaps {
+					mods[hn] = true
+				}
+			}
+			t.errs = t.errs[:nerr]
+		}
+	}
 	for _, g := range ct.GhostOut {
 		mods["G."+g] = true
 		t.eng.heapSort["G."+g] = "(Array Int Int)"
@@ -853,6 +954,11 @@ func (t *fnTrans) ret(x *ssa.Return) {
 		if label == "" {
 			label = fmt.Sprintf("%d", i+1)
 		}
+		if strings.HasPrefix(label, "ghostdef") {
+			// defines ghost bookkeeping (e.g. the ghost clock) that has no counterpart in the code:
+			// assumed by callers, not an obligation of the body
+			continue
+		}
 		parts := splitConj(cl.Expr)
 		for pi, pe := range parts {
 			f := env.evalBool(pe)
@@ -904,6 +1010,12 @@ func (t *fnTrans) frameCheck(x *ssa.Return, env *specEnv) {
 			locs = append(locs, l)
 		}
 	}
+	// what other goroutines may change (rely) is not this function's modification
+	for _, loc := range t.ct.RelyMod {
+		if l, ok := t.resolveLoc(loc, env, t.entry); ok {
+			locs = append(locs, l)
+		}
+	}
 	top0 := t.top(t.entry)
 	var names []string
 	for hn := range t.st.heaps {
@@ -912,7 +1024,7 @@ func (t *fnTrans) frameCheck(x *ssa.Return, env *specEnv) {
 	sortStrings(names)
 	for _, hn := range names {
 		cur := t.st.heaps[hn]
-		if hn == "$top" || hn == "$held" || strings.HasPrefix(hn, "CL.") || strings.HasPrefix(hn, "G.") {
+		if hn == "$top" || hn == "$held" || strings.HasPrefix(hn, "CL.") || strings.HasPrefix(hn, "G.") || strings.HasPrefix(hn, "GF.") {
 			continue
 		}
 		hs := t.eng.heapSort[hn]
@@ -953,7 +1065,7 @@ func (t *fnTrans) frameCheck(x *ssa.Return, env *specEnv) {
 			same = eq(sel(cur, r), sel(ent, r))
 		}
 		f := imp(and(le("1", r), le(r, top0), not(or(excl...))), same)
-		if strings.HasPrefix(hn, "C.") || strings.HasPrefix(hn, "F.") || strings.HasPrefix(hn, "B.") {
+		if strings.HasPrefix(hn, "C.") || strings.HasPrefix(hn, "F.") || strings.HasPrefix(hn, "B.") || strings.HasPrefix(hn, "GF.") {
 			// pre-existing: allocated objects, globals (small negative refs), and sub-objects of pre-existing objects
 			base := "(subobj_base " + r + ")"
 			isOld := or(and(le("1", r), le(r, top0)),
